@@ -85,6 +85,14 @@ def forms(ch, T, kT, U, kU):
     L.append(('funcptr-call', 'fp();'))
     L.append(('sizeof', 'q += sizeof(a) * 0;'))
     L.append(('alloca', '{ char *z = alloca(%d); z[0] = 1; @sink(z); }' % ch.choice([1, 16, 24, 100])))
+    # storage obtained while values of the enclosing expression are pending on the machine stack: the pending values must survive
+    # (chibicc moves its temporary area below the new block), and the allocation must not overlap them
+    asz = ch.choice([1, 8, 16, 24, 100])
+    L.append(('alloca-pending-binop', 'q = (@fill(alloca(%d), %d) == 7) * (k + 5) - 6 + (k + 2) * (@fill(alloca(%d), 3) != 7) * 0;' % (asz, asz, asz)))
+    L.append(('alloca-pending-arg', 'c = @id3(@fill(alloca(%d), %d), a, @fill(alloca(8), 8));' % (asz, asz)))
+    L.append(('vla-pending-binop', 'q = ({ char vz[k + %d]; @fill(vz, k + %d); vz[k] - 7; }) + (k + 5) * ({ char vy[k + 2]; vy[1] = 3; vy[1]; }) - 18;' % (asz, asz)))
+    L.append(('vla-pending-arg', 'c = @id3(@fill(alloca(8), 8), ({ long vw[k + %d]; vw[k] = 1; a; }), 0);' % ch.choice([1, 2, 5])))
+    L.append(('vla-block', '{ int vn = k + %d; %s vz[vn]; vz[vn - 1] = a; c = vz[k + %d]; }' % (asz, T, asz - 1)))
     if scal:
         L.append(('not', '!a;'))
         L.append(('logand', 'a && b;'))
@@ -141,10 +149,13 @@ class C20:
         U, kU = ch.choice(TYPES[:13])
         fl = forms(ch, T, kT, U, kU)
         tag, stmt = ch.choice(fl)
-        N = ch.choice([1, 7, 8, 9, 64, 100000]) if tag != 'alloca' else ch.choice([1, 7, 8, 9, 64, 500])
+        dyn = tag.startswith('alloca') or tag.startswith('vla')
+        N = ch.choice([1, 7, 8, 9, 64, 100000]) if not dyn else ch.choice([1, 7, 8, 9, 64, 500])
         decls = ('static int @anchor[4];\n'
                  'static %s @f(void) { %s r = %s; return r; }\nstatic %s @id(%s x) { return x; }\nstatic void @g(%s x) { }\nstatic void @sink(void *p) { }\n'
-                 % (T, T, init_for(ch, T, kT), T, T, T))
+                 'static void *@fill(void *p, int n) { for (int i = 0; i < n; i++) ((char *)p)[i] = 7; return p; }\n'
+                 'static %s @id3(void *p, %s x, void *r) { return x; }\n'
+                 % (T, T, init_for(ch, T, kT), T, T, T, T, T))
         if kT in 'if':
             decls += 'static int @va(int n, ...) { return n; }\n'
             decls += 'static long double @deep(long double x, long double y) { return x + (y + (x + (y + (x + (y + (x + (y * 0.5L))))))); }\n'
@@ -155,14 +166,14 @@ class C20:
                 'long s0 = sp_probe(); int t0 = x87_probe();',
                 'for (long it = 0; it < %d; it++) { %s }' % (N, stmt),
                 'long s1 = sp_probe(); int t1 = x87_probe();']
-        if tag == 'alloca':
-            body.append('printf("@ sp %%d x87 %%x %%x\\n", (int)(s0 - s1 >= 0 && s0 - s1 <= %dL * 160), t0, t1);' % N)
+        if dyn:
+            body.append('printf("@ sp %%d x87 %%x %%x\\n", (int)(s0 - s1 >= 0 && s0 - s1 <= %dL * 2048), t0, t1);' % N)
         else:
             body.append('printf("@ sp %ld x87 %x %x\\n", s1 - s0, t0, t1);')
         body.append('{ long double chk = ld1 * ld2 + ld3 - (long double)q * 0; printf("@ chk %Lg %d\\n", chk, (int)(k + q * 0)); }')
         if kT in 'if':
             body.append('printf("@ val %Lg %Lg %Lg\\n", (long double)a, (long double)b, (long double)c);')
-        nt = (tag, T, U, N) if ((T == 'long double' or kT == 'a' or tag in ('call-arg', 'call-nested', 'chain-assign', 'cond-assign', 'call-variadic', 'op-assign-chain', 'alloca', 'stmt-expr-value', 'to-long-double', 'from-long-double', 'cast-chain') or tag.startswith('ld-')) and N >= 8) else None
+        nt = (tag, T, U, N) if ((T == 'long double' or kT == 'a' or tag in ('call-arg', 'call-nested', 'chain-assign', 'cond-assign', 'call-variadic', 'op-assign-chain', 'alloca', 'stmt-expr-value', 'to-long-double', 'from-long-double', 'cast-chain') or tag.startswith('ld-') or dyn) and N >= 8) else None
         return diffprog.Case(decls=decls, body='\n'.join('  ' + l for l in body) + '\n', nt=nt, tags=['form:' + tag, 'T:' + T, 'N:%d' % N])
 
     def example(self, ch, ctx):
